@@ -553,6 +553,10 @@ func (ex *Exec) specCall(sc *specCtx, e *ast.CallExpr) (Val, bool) {
 	case "window":
 		a := ex.specArgs(sc, e.Args)
 		return Val{MkSlice(SBase(a[0].T), Add(SOff(a[0].T), a[1].T), a[2].T, a[2].T), a[0].Typ}, true
+	case "mem":
+		a := ex.specArgs(sc, e.Args)
+		elem := elemTypeOf(a[0].Typ)
+		return Val{ex.memRead(elem, SBase(a[0].T), a[1].T), elem}, true
 	case "sameArray":
 		a := ex.specArgs(sc, e.Args)
 		return Val{Eq(SBase(a[0].T), SBase(a[1].T)), typBool}, true
